@@ -287,6 +287,18 @@ class CSSRuleRules(CSSRule):
             self._log.error(f'{rule}: Not a CSSRule: {self.__class__.__name__}')
             return False, False
 
+        # a rule cannot contain itself
+        ancestor = self
+        while ancestor is not None:
+            if ancestor is rule:
+                self._log.error(
+                    '%s: A rule cannot be inserted into itself or one of '
+                    'its descendants.' % self.__class__.__name__,
+                    error=xml.dom.HierarchyRequestErr,
+                )
+                return False, False
+            ancestor = ancestor.parentRule
+
         return rule, index
 
     def _finishInsertRule(self, rule, index):
